@@ -20,7 +20,7 @@ KNOWN_FILE = os.path.join(VERIF, "known_findings.json")
 TRUSTED_BASE = [
     "CPython ast/compile front end and re._parser (the parsers the repo runs under)",
     "engine library model: which NumPy/SciPy/builtin callables copy, view or write their arguments; axis semantics of reductions; searchsorted side semantics",
-    "repository conventions read by the rules: ref*/est* parameter prefixes, numpydoc Parameters/Returns sections, score keys as string constants, util.filter_kwargs as the only keyword router, decorator package preserving signatures",
+    "repository conventions read by the rules: ref*/est* parameter prefixes, numpydoc Parameters/Returns sections, score keys as string constants, util.filter_kwargs as the only keyword router; library fact modelled by C03.DECORATED: a function wrapped by util.deprecated (decorator >= 5) keeps its parameters in inspect.signature but its __code__ is the (*args, **kw) wrapper",
     "no dynamic code in the analysed modules (rule PM-DYN, checked on every run)",
     "mathematical oracles not re-proved: |one-to-one matching| <= min(|A|,|B|); maximum-matching size is monotone in the edge set and invariant under transposition; max(a,b)=min(a,b)+(a-b)^+ +(b-a)^+; equality/differences invariant under a common shift; mod-12 arithmetic",
 ]
